@@ -656,7 +656,7 @@ func scenarios(th bool) []scenario {
 	// P-mode: the same holders as separate OS processes (no shared *Mutex value there)
 	pb := 2
 	if th {
-		pb = -1
+		pb = 4 // every execution starts two processes: all schedules of ~40 scenarios do not fit the cap
 	}
 	var ps []scenario
 	for _, sc := range scs {
